@@ -718,6 +718,27 @@ def main():
     unauth_status, unauth_code, unauth_msg = status_of[um[0]], ustr[0], ustr[1]
     vbody, _ = fn_body(impl_block(auth, "ApiKeyHash"), "verify")
     verify_ct = bool(re.search(r"\bconstant_time_eq\s*\(", vbody)) and bool(re.search(r"\bfrom_key\s*\(", vbody))
+    # key equality must depend on the WHOLE key: what `from_key` feeds the hasher, what `verify` compares,
+    # what the call sites pass
+    kbody, ksig = fn_body(impl_block(auth, "ApiKeyHash"), "from_key")
+    kparams = [(re.sub(r"^(mut\s+|&\s*)", "", p_).strip(), t_) for p_, t_ in params_of(ksig)]
+    if len(kparams) != 1 or "str" not in kparams[0][1]:
+        die("auth.rs: ApiKeyHash::from_key does not take exactly one &str")
+    kvar = kparams[0][0]
+    lossy = r"\[[^\]]*\.\.|\.\s*(trim\w*|to_(ascii_)?(lower|upper)case|take|truncate|split\w*|get|nfc|nfd|nfkc|nfkd|chars|replace|strip_\w+|first|last|chunks)\s*\("
+    ups = re.findall(r"\.\s*update\s*\(([^;]*)\)\s*;", kbody)
+    whole_key = (len(ups) == 1 and re.fullmatch(r"&?\s*" + re.escape(kvar) + r"\s*\.\s*as_bytes\s*\(\s*\)", ups[0].strip()) is not None
+                 and not re.search(lossy, kbody) and re.search(r"finalize\s*\(\s*\)\s*\.\s*into\s*\(\s*\)", kbody) is not None
+                 and len(re.findall(r"\b" + re.escape(kvar) + r"\b", kbody)) == 1)
+    whole_digest = (re.search(r"constant_time_eq\s*\(\s*&\s*Self::from_key\s*\(\s*\w+\s*\)\s*\.\s*0\s*,\s*&\s*self\s*\.\s*0\s*\)", " ".join(vbody.split())) is not None
+                    and not re.search(lossy, vbody))
+    cbody, _ = fn_body(mod, "constant_time_eq")
+    cte_len = bool(re.search(r"\.\s*len\s*\(\s*\)\s*(!=|==)\s*\w+\s*\.\s*len\s*\(\s*\)", cbody)) and not re.search(r"\[[^\]]*\.\.", cbody)
+    # every hash of a key in auth.rs / state.rs is of a plain variable (no slicing / folding at the call site)
+    sites = re.findall(r"\bfrom_key\s*\(([^()]*(?:\([^()]*\)[^()]*)*)\)", auth) + \
+        re.findall(r"\bfrom_key\s*\(([^()]*(?:\([^()]*\)[^()]*)*)\)", cut_test_module(strip_comments(open(p_statefile).read())))
+    sites = [a.strip() for a in sites if not re.fullmatch(r"\w+\s*:\s*&str", a.strip())]
+    call_sites_whole = bool(sites) and all(re.fullmatch(r"&?\s*\w+", a) or re.fullmatch(r"\w+\s*\.\s*as_(deref|str)\s*\(\s*\)", a) for a in sites)
     abody = inlined(auth, "authorize")
     dummy_burned = bool(re.search(r"\bTIMING_DUMMY\s*\.\s*verify\s*\(", abody)) and "black_box" in abody
     answers = set(re.findall(r"\bApiError::(\w+)\s*\(", abody))
@@ -850,6 +871,13 @@ def main():
     w(f"def unauthorizedStatus : Nat := {unauth_status}")
     w(f"def unauthorizedCode : String := {lean_str(unauth_code)}")
     w(f"def unauthorizedMessage : String := {lean_str(unauth_msg)}")
+    w("/-- key equality depends on the WHOLE key: `from_key` feeds `<key>.as_bytes()` — unsliced, untrimmed,")
+    w("unfolded — to the hasher exactly once and keeps the whole digest; `verify` compares the two whole digests;")
+    w("`constant_time_eq` refuses different lengths; every `from_key(..)` call site passes a plain variable -/")
+    w(f"def fromKeyHashesWholeKey : Bool := {lean_bool(whole_key)}")
+    w(f"def verifyComparesWholeDigest : Bool := {lean_bool(whole_digest)}")
+    w(f"def constantTimeEqChecksLength : Bool := {lean_bool(cte_len)}")
+    w(f"def fromKeyCallSitesPassWholeKey : Bool := {lean_bool(call_sites_whole)}")
     w("/-- `ApiKeyHash::verify` hashes the presented key and compares digests with `constant_time_eq` -/")
     w(f"def verifyIsConstantTime : Bool := {lean_bool(verify_ct)}")
     w("/-- `authorize` (helpers inlined) burns `TIMING_DUMMY.verify(..)` behind `black_box` -/")
